@@ -320,6 +320,25 @@ def inv(A):
         X = _np.empty((1, 1), dtype=object)
         X[0, 0] = 1 / A[0, 0]
         return X.view(SymArray)
+    # a deterministic function: the same matrix (entries compared in z3's sum-of-monomials normal form) gets the same unknowns
+    from .harness import clear_denominators
+
+    def _same(P, Q):
+        for x, y in zip(P.flat, Q.flat):
+            if not isinstance(x, Sym) and not isinstance(y, Sym):
+                if float(x) != float(y):
+                    return False
+                continue
+            n1, d1 = clear_denominators(core.toz(x))
+            n2, d2 = clear_denominators(core.toz(y))
+            z = z3.simplify(n1 * d2 - n2 * d1, som=True)
+            if not (z3.is_rational_value(z) and z.as_fraction() == 0):
+                return False
+        return True
+    for (Aprev, Xprev) in ENG.records.get('inv', []):
+        if Aprev.shape == A.shape and _same(Aprev, A):
+            ENG.records.setdefault('inv', []).append((A, Xprev))
+            return Xprev
     base = ENG.fresh_name('inv')
     X = _np.empty((n, n), dtype=object)
     for i in range(n):
